@@ -62,11 +62,12 @@ type Contract struct {
 	NoPanic  bool
 	Trusted  string
 	Lets     []LetSpec
-	Bounded  bool     // `bounded F`: F is an exhaustive enumerator (ghost Go func() (cases int, failures []string)) run natively
-	ScopePkg string   // package path whose scope resolves identifiers (extern contracts declared in a package file)
-	ModAny   bool     // `modifies anything`: no frame is claimed; callers havoc the heap
-	Lemma    bool     // a contract-only obligation (no code): `lemma name` blocks
-	Params   []string // for lemma blocks: "x Real" declarations
+	Waived   map[string]string // obligation suffix -> reason: generated and attempted, but not claimed
+	Bounded  bool              // `bounded F`: F is an exhaustive enumerator (ghost Go func() (cases int, failures []string)) run natively
+	ScopePkg string            // package path whose scope resolves identifiers (extern contracts declared in a package file)
+	ModAny   bool              // `modifies anything`: no frame is claimed; callers havoc the heap
+	Lemma    bool              // a contract-only obligation (no code): `lemma name` blocks
+	Params   []string          // for lemma blocks: "x Real" declarations
 	File     string
 	Line     int
 }
@@ -86,7 +87,7 @@ type ContractFile struct {
 var clauseKeywords = map[string]bool{
 	"props": true, "requires": true, "ensures": true, "shows": true, "modifies": true, "decreases": true,
 	"loop": true, "call": true, "assert": true, "inline": true, "pure": true, "nopanic": true,
-	"trusted": true, "param": true, "let": true,
+	"trusted": true, "param": true, "let": true, "unclaimed": true,
 }
 
 var labelRe = regexp.MustCompile(`^(requires|ensures|shows|invariant)\[([A-Za-z0-9_\-]+)\]$`)
@@ -223,6 +224,15 @@ func addClause(cf *ContractFile, c *Contract, words []string, text, path string,
 		if c.Trusted == "" {
 			c.Trusted = "trusted"
 		}
+	case "unclaimed":
+		f := strings.Fields(rest)
+		if len(f) < 2 {
+			return fmt.Errorf("%s:%d: unclaimed <obligation> \"reason\"", path, line)
+		}
+		if c.Waived == nil {
+			c.Waived = map[string]string{}
+		}
+		c.Waived[f[0]] = strings.Trim(strings.TrimSpace(rest[len(f[0]):]), `"`)
 	case "param":
 		c.Params = append(c.Params, rest)
 	case "let":
